@@ -277,7 +277,7 @@ def run(tier, seed, started):
     c = res.counters
     if c.get('requests', 0) < 50000 or res.sets.get('methods') != set(METHODS) or \
             not c.get('answered') or not c.get('refused'):
-        raise common.Broken(f'vacuous C16 run: {c}')
+        common.vacuous(PROP, res, f'vacuous C16 run: {c}')
     sizes = [len(a) for a in alphabet()]
     coverage = {
         'evaluations': c['requests'],
